@@ -10,9 +10,21 @@ Clauses checked on the implementation's answer to `bisect <poly> <lo> <init> <hi
  3. every `ok x`: x finite, lo <= x <= hi exactly, and |g(x)| < 1e-4 (+ rounding slack) with g the
     polynomial (root mode) or its exact derivative (extrema mode), evaluated in exact rationals from
     the bit patterns of the request;
- 4. completeness: if g(lo)*g(hi) <= 0 (decided with a margin, see `sign_known`), the data are
-    moderately scaled (sum k|c_k|X^(k-1) <= 1000, X = max(|lo|,|hi|,) <= 1000), the budget is ample
-    (itermax >= 2000) and the tolerance small (0 < tol, tol*X <= 1e-6), a value must be returned.
+ 4. completeness: if g(lo)*g(hi) <= 0 (decided with a margin, see `sign_known`), the data are moderately scaled,
+    the budget is ample and the tolerance is small enough FOR THE BRACKET, a value must be returned.  With
+    X = max(|lo|,|hi|), D(t) = sum k|c_k|t^(k-1) >= max|g'| on [-t, t] and A(t) = sum |c_k| t^k:
+      * moderately scaled:  D(max(X,1)) <= 1000; every term can be evaluated anywhere in the bracket (A(X) <= 1e300,
+        and X^k <= 1e300 for every coefficient slot of a dense polynomial: `0 * inf` is NaN); the evaluation noise
+        ~2e-15 A(X) is far below the gate (A(X) <= 2e7); no non-zero term is negligible at the scale of the bracket
+        (|c_k| max(X,1)^k >= 1e-100);
+      * ample budget: itermax >= 2000 (>= 2500 when X > 2^800): a bracket that straddles a root at 0 is halved
+        log2(2X) + 1074 times before the midpoint underflows onto it, plus <= 60 passes to reach the last bit;
+      * tolerance small enough for the bracket:  D(X) * (tol/100) * X <= 5e-5, half the gate.  Bisection stops at a
+        midpoint x whose distance to the previous midpoint - the half width of the bracket that still holds the sign
+        change - is below tol/100*|x| <= tol/100*X, so |g(x)| <= D(X)*tol/100*X + noise: the residual gate cannot fail.
+        (This is the statement's "a value is returned" at EVERY scale: a bracket of width 1e-3 with a tolerance of
+        0.05 % is judged, and so is a bracket at 2^1000 with a slope of 2^-1010; the earlier absolute form
+        `tol*X <= 1e-6` left both to the correspondence K.)
 
 Rounding slack of clause 3: the code evaluates g in f64 (n <= 8 terms, each a product of a coefficient
 and a power computed by <= 6 multiplications); the absolute error is below 2n*u*sum|c_k||x|^k with
@@ -22,7 +34,7 @@ correct implementation cannot trip it, while a wrong gate (1e-2 instead of 1e-4)
 import struct, math
 from fractions import Fraction as Fr
 
-RULE = ("(hardening: the whole problem rescaled to every decade 1e-20..1e20 and binade 2^-70..2^60 with brackets of relative width 1e-15..1e6, one root of size 1e-20..1 among ordinary roots for the completeness clause, degrees 8..24, initial guesses one ulp outside the bracket, signed-zero brackets, roots on both ends and the midpoint, caps next to 2^16 / 2^31 / 2^32 / 2^63 / usize::MAX, other variable names) requests: polynomials built from chosen roots (degree 0..7; roots at 0, on either bracket end, double roots, "
+RULE = ("(round 3: a midpoint of exactly 0 at pass 1..4 AND a bracket narrower than the tolerance AND a residual at 0 above the gate [brackets [-3a,a], [-7a,a], [-a,3a], [-5a,3a] ... with a = m 2^-4..2^-22, m a power of two or a 21-bit mantissa; controls at scale 1, 2^-40, root at 0, zero midpoint at pass 0], brackets with ends within a few binades of f64::MAX (wider than f64::MAX half of the time at 2^1023) and of its square / cube root with slopes down to 2^-1070, brackets inside the subnormal range, brackets 0..6 units in the last place wide at every binade 2^-1060..2^1020, 2- / 3- / 4-byte and word-like variable names; the converse clause is judged at the scale of the bracket: slope * tol/100 * X <= half the gate) (hardening: the whole problem rescaled to every decade 1e-20..1e20 and binade 2^-70..2^60 with brackets of relative width 1e-15..1e6, one root of size 1e-20..1 among ordinary roots for the completeness clause, degrees 8..24, initial guesses one ulp outside the bracket, signed-zero brackets, roots on both ends and the midpoint, caps next to 2^16 / 2^31 / 2^32 / 2^63 / usize::MAX, other variable names) requests: polynomials built from chosen roots (degree 0..7; roots at 0, on either bracket end, double roots, "
         "complex pairs), arbitrary polynomials of both kinds, brackets ordered/reversed/degenerate, init on the ends, "
         "on the midpoint, inside, outside, tolerances 1e-12..1e3 and <= 0, caps 0..5000, both modes; non-trivial = the "
         "model returns a value (`ok`), so containment and the residual gate are exercised; distinct = distinct request lines")
@@ -56,11 +68,15 @@ def read_name(t, i):
     return s, i + n
 
 
-def read_poly(t, i):
+def read_poly(t, i, maxpow=64):
     """returns (kind, plain coefficient dict {power: Fraction} or None, magnitudes {power: sum of |coefficient| of the
     terms with that power} or None, i).  `None` = not a plain univariate polynomial with positive integer powers
     (several variables, unbound variable, other exponents, non-finite).  The magnitudes are what the rounding error
-    of the code's term-by-term evaluation scales with (terms of equal power are NOT merged by the code)."""
+    of the code's term-by-term evaluation scales with (terms of equal power are NOT merged by the code).
+    `maxpow`: largest exponent of an intermediate polynomial the caller is prepared to evaluate (C07 raises it to the
+    grammar's limit and beyond and evaluates such powers in interval arithmetic).  A dense polynomial with more than
+    200 slots keeps only its non-zero coefficients and the last slot (its length is the highest power the code raises
+    x to)."""
     kind = t[i]; i += 1
     if kind == "S":
         i += 1  # variable
@@ -68,7 +84,8 @@ def read_poly(t, i):
         cs = [fbits(x) for x in t[i:i + n]]; i += n
         if not all(math.isfinite(c) for c in cs):
             return kind, None, None, i
-        return kind, {k: exact(c) for k, c in enumerate(cs)}, {k: abs(exact(c)) for k, c in enumerate(cs)}, i
+        keep = [(k, c) for k, c in enumerate(cs) if n <= 200 or c != 0 or k == n - 1]
+        return kind, {k: exact(c) for k, c in keep}, {k: abs(exact(c)) for k, c in keep}, i
     assert kind == "I"
     nt = int(t[i]); i += 1
     terms = []
@@ -97,7 +114,7 @@ def read_poly(t, i):
         k = 0
         for name, p in vs:
             # (an explicit `x^0` factor is excluded too: its derivative is `0*x^-1`, NaN at 0 by design)
-            if name != var or not math.isfinite(p) or p < 1 or p != int(p) or p > 64:
+            if name != var or not math.isfinite(p) or p < 1 or p != int(p) or p > maxpow:
                 return kind, None, None, i
             k += int(p)
         coeffs[k] = coeffs.get(k, Fr(0)) + exact(c)
@@ -110,22 +127,22 @@ def deriv(cs):
 
 
 def ev(cs, x):
-    return sum((c * x ** k for k, c in cs.items()), Fr(0))
+    return sum((c * x ** k for k, c in cs.items() if c != 0), Fr(0))
 
 
 def absum(cs, x):
     ax = abs(x)
-    return sum((abs(c) * ax ** k for k, c in cs.items()), Fr(0))
+    return sum((abs(c) * ax ** k for k, c in cs.items() if c != 0), Fr(0))
 
 
 def dbound(cs, X):
     """sum k |c_k| X^(k-1) >= max |g'| on [-X, X]"""
-    return sum((k * abs(c) * X ** (k - 1) for k, c in cs.items() if k >= 1), Fr(0))
+    return sum((k * abs(c) * X ** (k - 1) for k, c in cs.items() if k >= 1 and c != 0), Fr(0))
 
 
 def d2bound(cs, X):
     """sum k(k-1) |c_k| X^(k-2) >= max |g''| on [-X, X]"""
-    return sum((k * (k - 1) * abs(c) * X ** (k - 2) for k, c in cs.items() if k >= 2), Fr(0))
+    return sum((k * (k - 1) * abs(c) * X ** (k - 2) for k, c in cs.items() if k >= 2 and c != 0), Fr(0))
 
 
 def representable(q):
@@ -147,11 +164,11 @@ def float_exact_eval(cs, x, extrema_src=None):
     return True
 
 
-def parse(req):
+def parse(req, maxpow=64):
     t = req.split()
     r = Req()
     r.cmd = t[0]
-    r.kind, r.p, r.pabs, i = read_poly(t, 1)
+    r.kind, r.p, r.pabs, i = read_poly(t, 1, maxpow)
     r.rest = t[i:]
     return r
 
@@ -163,9 +180,12 @@ def parse_bisect(req):
     r.itermax = int(r.rest[4])
     r.mode = r.rest[5]
     r.g = r.gabs = None
+    r.gslots = 0
     if r.p is not None:
         r.g = r.p if r.mode == "root" else deriv(r.p)
         r.gabs = r.pabs if r.mode == "root" else deriv(r.pabs)
+        # highest power the code raises x to (a dense polynomial keeps its zero coefficients)
+        r.gslots = max(list(r.p) + [0]) - (0 if r.mode == "root" else 1)
     return r
 
 
@@ -215,12 +235,20 @@ def oracle(req, impl):
     if not (math.isfinite(r.tol) and r.tol > 0 and r.itermax >= 2000 and r.lo <= r.hi):
         return None
     X = max(abs(exact(r.lo)), abs(exact(r.hi)))
-    if X > 1000 or exact(r.tol) * X > Fr(1, 10 ** 6):
+    if X > 2 ** 800 and r.itermax < 2500:
         return None
-    if dbound(r.gabs, max(X, Fr(1))) > 1000:
+    X1 = max(X, Fr(1))
+    if dbound(r.gabs, X1) > 1000:
         return None
-    nz = [abs(c) for c in r.gabs.values() if c != 0]
-    if nz and min(nz) < Fr(1, 10 ** 100):
+    A = absum(r.gabs, X)
+    if A > 2 * 10 ** 7:
+        return None
+    # a dense polynomial evaluates every slot `c_k * x.powi(k)`, zero coefficients included: no power may overflow
+    if r.kind == "S" and r.gslots >= 1 and X > 1 and X ** r.gslots > 10 ** 300:
+        return None
+    if any(c != 0 and c * X1 ** k < Fr(1, 10 ** 100) for k, c in r.gabs.items()):
+        return None
+    if dbound(r.gabs, X) * exact(r.tol) * X > Fr(5, 1000):
         return None
     # exactness of the code's own derivative coefficients (extrema mode): c_k * k must be representable
     coeff_exact = all(representable(c) for c in r.g.values())
